@@ -404,7 +404,11 @@ impl Parser {
         }
 
         let first = tokens.next();
-        let error = expect_punct(tokens.next(), '|');
+        // The `|` closing the parameter list may be directly followed by the punctuation the
+        // body begins with (`|lex|-1`, `|lex|!x`): its spacing says nothing here.
+        let error = tokens
+            .next()
+            .filter(|tt| !matches!(tt, TokenTree::Punct(punct) if punct.as_char() == '|'));
 
         let arg = match (error, first) {
             (None, Some(TokenTree::Ident(arg))) => arg,
